@@ -3,6 +3,7 @@ import gc
 import random
 from .. import gen, diff
 from ..real import Real
+from ..terms import is_bound
 from ..refA import unify as ref_unify
 from ..sto import sto
 from ..terms import V, A, C, L, NIL, I, canon, Cyclic, snap_real, build_real, rprogram, rterm
@@ -298,9 +299,9 @@ class Run:
         for v in list(self.reg.live):
             was = pre_flags.get(id(v))
             if was is None:
-                if v._is_bound:
+                if is_bound(v):
                     bound_new += 1
-            elif was != bool(v._is_bound):
+            elif was != is_bound(v):
                 changed += 1
         return bound_new, changed
 
@@ -363,7 +364,7 @@ def run_config(ctx, clauses, qname, qargs, outer, py, c):
         c['with_outer_bindings'] = c.get('with_outer_bindings', 0) + run.c.get('executions', 0)
     if not v:
         # after the outer unifications are closed everything must be unbound
-        left = [x for x in run.robs if isinstance(x, run.E.Variable) and x._is_bound]
+        left = [x for x in run.robs if isinstance(x, run.E.Variable) and is_bound(x)]
         if left:
             v = {'kind': 'variable_bound_after_outer_closed', 'detail': {'count': len(left)}}
     r = {'c': c, 'nt': n >= 1, 'key': (run.src, witness['query'], outer)}
@@ -422,7 +423,7 @@ def odd_constant_case(ctx, rng):
             except (KeyError, StopIteration, AttributeError):
                 pass
         del g
-        if E.get_value(X) is not X or X._is_bound or Y._is_bound:
+        if E.get_value(X) is not X or is_bound(X) or is_bound(Y):
             return {'c': c, 'nt': True, 'key': None, 'v': {'kind': 'variable_left_bound_to_constant', 'detail': dict(w, ended_by=how), 'witness': dict(w, ended_by=how)}}
         c['odd_constant_unifications'] = c.get('odd_constant_unifications', 0) + 1
     # dynamic facts holding the value
@@ -443,7 +444,7 @@ def odd_constant_case(ctx, rng):
                 break
         if stop is None and n != 3:
             return {'c': c, 'nt': True, 'key': None, 'v': {'kind': 'answers_missing', 'detail': dict(w, expected=3, got=n, values=repr(vals)), 'witness': w}}
-        if S._is_bound or Vv._is_bound:
+        if is_bound(S) or is_bound(Vv):
             return {'c': c, 'nt': True, 'key': None, 'v': {'kind': 'variable_left_bound_to_constant', 'detail': dict(w, after_query_stopped_at=stop), 'witness': w}}
         c['odd_constant_queries'] = c.get('odd_constant_queries', 0) + 1
     return {'c': c, 'nt': True, 'key': ('odd', repr(k), tuple(repr(v) for v in vals))}
